@@ -53,7 +53,9 @@ Definition rh_step (v : variant) (s : rh) (o : rop) : rh :=
     | Fault => mkrh (rh_d s) (rh_msgs s) true (rh_in s)
     end
   | RRecv =>
-    if qlen (dq_q (rh_d s)) =? 0 then s else rh_after s (dqueue_recv v (rh_d s))
+    if qlen (dq_q (rh_d s)) =? 0
+    then mkrh (mkdq (dq_q (rh_d s)) (dst_consumed (dq_st (rh_d s)))) (rh_msgs s) false (rh_in s)
+    else rh_after s (dqueue_recv v (rh_d s))
   end.
 
 Definition rh_run (v : variant) (s : rh) (ops : list rop) : rh := fold_left (rh_step v) ops s.
@@ -362,7 +364,18 @@ Proof.
       unfold flat_of. cbn [rh_d rh_msgs rh_stop rh_in dq_q dq_st]. rewrite Hc'. exact H.
     + destruct Hp as (e & ->). split; [assumption|intros _; assumption].
   - (* receive *)
-    destruct (Nat.eqb_spec (qlen (dq_q (rh_d s))) 0) as [|Hne]; [split; [assumption|intros _; assumption]|].
+    destruct (Nat.eqb_spec (qlen (dq_q (rh_d s))) 0) as [Hz|Hne].
+    { (* empty queue: a held message is marked consumed *)
+      split; [|intros _; exact Hq].
+      destruct Hh as (C & F & Hf & Hs). unfold flat_of in *. cbn [hs_msgs hs_stop hs_st hs_buf rh_d rh_msgs rh_stop rh_in dq_q dq_st] in *.
+      rewrite Est in Hs. destruct Hs as [HI (G1 & G2 & Hm)].
+      exists C, F. cbn [hs_msgs hs_stop hs_st hs_buf]. split; [assumption|].
+      rewrite contents_length in G2 by assumption.
+      unfold dst_consumed. destruct (dmsg (dq_st (rh_d s))) as [c|] eqn:Em.
+      - destruct Hm as (Hc & Hcode & HF). cbn [dcurr]. split; [exact HI|].
+        unfold cinv. cbn [dpos dlen dcurr dmsg dcode]. split; [assumption|]. split; [rewrite contents_length by assumption; lia|].
+        rewrite Hcode. cbn [Nat.eqb]. split; [lia|assumption].
+      - split; [exact HI|]. unfold cinv. rewrite Em. split; [assumption|]. split; [rewrite contents_length by assumption; lia|assumption]. }
     unfold flat_of in Hh. rewrite Est in Hh.
     set (q := dq_q (rh_d s)) in *. set (st := dq_st (rh_d s)) in *.
     pose proof (finish_recv v s st q Est Hq Hh) as Hfin.
